@@ -727,6 +727,10 @@ _TALES_CASES = [
     ("a | b", _RAISES), ("a", _RAISES), ("a | nothing", None), ("nothing", None), ("n", None), ("a | default", _DEFAULT),
     ("a | string:lit", "lit"), ("a | exists: b", 0), ("a | not: b", 1), ("d/k", "v"), ("d/q | t", "x"), ("d/q", _RAISES), ("lst/1", 20),
     ("a | d/q | d/k", "v"),
+    # a later step that the value reached so far does not have (a name on a sequence, a step on a number, a string or nothing) is a
+    # missing path like any other - the next alternative is taken
+    ("lst/name | t", "x"), ("lst/5 | t", "x"), ("z/part | u", "y"), ("t/part | u", "y"), ("n/part | t", "x"), ("lst/name", _RAISES),
+    ("exists: lst/name", 0), ("exists: z/part", 0), ("not: lst/name", 1), ("string:${lst/name | t}", "x"),
     # exists: true when a path exists (whatever its value); later alternatives are whole expressions
     ("exists: t", 1), ("exists: a", 0), ("exists: f", 1), ("exists: n", 1), ("exists: a | t", 1), ("exists: a | b", 0),
     ("exists:a | b | t", 1), ("exists: a | exists: b", 0), ("exists: a | exists: b | exists: t", 1), ("exists: a | exists: t | exists: b", 1),
